@@ -454,8 +454,27 @@ class Lowering:
         cache[key] = ok and stores == 1 and loads == 0
         return cache[key]
 
+    def _callable_constant(self, func):
+        """A module-level name bound to attrgetter(..) / itemgetter(..) / partial(..) / a lambda: that callable."""
+        mod = self.model.modules.get(func[1])
+        node = mod.constants.get(func[2]) if mod is not None else None
+        if not isinstance(node, (ast.Call, ast.Lambda)):
+            return None
+        try:
+            v = Lowering(self.model, None, mod).expr(node, {})
+        except Exception:  # noqa: BLE001
+            return None
+        if op(v) in ("lambda", "bound") or (op(v) == "call" and op(v[1]) == "ext" and v[1][1] in ("operator.attrgetter", "operator.itemgetter")):
+            return v
+        return None
+
     def norm_call(self, t: tuple) -> tuple:
         func, args, kws = t[1], t[2], t[3]
+        if op(func) == "gconst":
+            fv = self._callable_constant(func)
+            if fv is not None:
+                func = fv
+                t = ("call", func, args, kws)
         fname = func[1] if op(func) in ("ext", "builtin") else None
         if fname == "itertools.chain" and not kws and not any(op(a) == "star" for a in args):
             elts = []
